@@ -19,7 +19,7 @@ pub fn prop() -> Prop {
         check,
         quick_runs: 16_000,
         both_profiles: false,
-        rule: "a run = 2-16 aircraft alternating talk spurts and silences whose lengths are drawn from {d-1, d-0.001, d, d+0.001, d+1, 3d, random} s for the run's delete_after d in {1,5,60,600,86400}; the refreshing frame of a spurt cycles through every format; a chatter aircraft keeps sweeps coming (in some runs nobody talks); -U on/off, -f subsets (excluded frames must not refresh), file or TCP with reconnects in the middle of silences; channel drops and duplicates; non-trivial = at least one row expired and at least one row was refreshed after a silence; distinct = distinct scripts",
+        rule: "a run = 2-16 aircraft alternating talk spurts and silences whose lengths are drawn from {d-1, d-0.001, d, d+0.001, d+1, 3d, random} s for the run's delete_after d in {1,5,60,600,86400}; the refreshing frame of a spurt cycles through every format; a chatter aircraft keeps sweeps coming (in some runs nobody talks); -U on/off, -f subsets (excluded frames must not refresh), file or TCP with reconnects in the middle of silences; channel drops and duplicates; in 6 % of the runs the wall clock is set back once or twice (a row seen stale once may then be gone although it looks young again); non-trivial = at least one row expired and at least one row was refreshed after a silence; distinct = distinct scripts",
         level_text: "seeded schedules of frames and silences under a discrete-event clock (exact limits d and 10 s reachable); oracle = reference expiry model after every event: live rows present, last-contact stamp equals processing time of the latest accepted frame, stale rows gone after 12 accepted frames, re-created rows remember nothing, row-count bound",
     }
 }
@@ -103,6 +103,7 @@ fn gen(rng: &mut Rng, idx: u64, tier: Tier) -> Case {
         prev = t;
         if rng.chance(0.05) { lines.push((0, line, format!("{:?}:duplicate", kind).to_lowercase())); }
     }
+    gen::clock_steps_back(rng, &mut lines, 0.06);
     let ch = *rng.pick(&[Chunking::Line, Chunking::Line, Chunking::Line, Chunking::Multi]);
     let tcp = rng.chance(0.35);
     let mut script = Script::file(args, vec![]);
@@ -169,6 +170,7 @@ fn check(case: &Case, st: &mut Stats) -> Vec<Violation> {
             if let Some(f) = &filter { if !f.contains(&c.df) { st.probe("filtered_frame_seen"); continue; } }
             if !c.judged { unjudged = true; continue; }
             let a = c.addr.unwrap();
+            if s.tag.contains("clock-back") { st.probe("clock_set_back"); }
             if let Some(&t) = model.last.get(&a) {
                 let gap = s.t_us - t;
                 if gap == d * 1_000_000 { st.probe("silence_exactly_d"); }
@@ -231,7 +233,7 @@ fn check(case: &Case, st: &mut Stats) -> Vec<Violation> {
         for a in &ever { if !s.after.contains_key(a) { seen_absent.insert(*a); } else if per_addr.contains_key(a) { seen_absent.remove(a); } }
         // bound: every row belongs to an aircraft that was live at some point of the last 12 accepted
         // frames (the zombie rule above) - and to an aircraft that was heard at all
-        let live = model.must_be_present(s.t_us).len();
+        let live = model.last.keys().filter(|a| !model.is_stale(**a, s.t_us)).count();
         let lingering = model.last.keys().filter(|a| model.is_stale(**a, s.t_us) && model.stale_frames.get(a).copied().unwrap_or(0) < 12).count();
         if let Some(k) = s.after.keys().find(|k| !model.last.contains_key(k)) {
             v.push(viol("C12.bound", i, format!("row {:06X} is listed although no accepted frame of it was ever processed ({} rows; {} live, {} stale for fewer than 12 frames)", k, s.after.len(), live, lingering), json!({})));
